@@ -19,6 +19,8 @@ def plan(tier):
         Q(P, 2, ['-***']),                                       # letter equal to the long name, reversible
         Q(P, 9, ['-***'], wit=(W_OK, W_ERR)),                     # options in a second group
         Q(P, 4, ['****']), Q(P, 12, ['****']),
+        Q(P, 2, ['--no-a**'], wit=(W_OK, W_ERR)),
+        Q(P, 1, ['--o=v', '***'], extra=['-DWIT_POS'], wit=(W_OK, W_ERR, 'a positional is reported')),   # the token after a complete --name=value is nobody's value                 # the negated spelling followed by anything: =value, more name bytes
     ]
     if th:
         qs += [Q(P, 3, ['-***', 'v', '--m=*'], wit=(W_OK, W_ERR), **H), Q(P, 1, ['-?????'], extra=two), Q(P, 1, ['***', '***'], extra=two, **H), Q(P, 1, ['-xy', '***'], extra=two, **H), Q(P, 1, ['***', '-xy'], extra=two, **H), Q(P, 3, ['***', '***'], **H),
